@@ -258,8 +258,21 @@ class Exec:
         self.pure = pure if pure is not None else prog_purity(prog)
         self.frozen = frozen_fields(prog)
 
+    stats = {"paths": 0, "functions": set(), "samples": []}
+
     # -------------------------------------------------------------- public
     def paths(self, body, args=None):
+        out = self._paths(body, args)
+        Exec.stats["paths"] += len(out)
+        Exec.stats["functions"].add(body.name)
+        if len(Exec.stats["samples"]) < 6 and out:
+            pa = out[len(out) // 2]
+            evs = [repr(e)[:160] for e in pa.events if e.kind != "bb"][:8]
+            Exec.stats["samples"].append({"function": body.name, "paths": len(out), "example_exit": str(pa.exit),
+                                          "example_events": evs})
+        return out
+
+    def _paths(self, body, args=None):
         if args is None:
             args = {}
             for i in range(1, body.arg_count + 1):
